@@ -3,7 +3,6 @@
 
 """Equality check for computational meshes"""
 from __future__ import annotations
-from itertools import product
 
 from .._numpy_utils import Array, make_array, get_sorting_index_map
 from ..predicates import FuzzyEquality, ExactEquality, PredicateResult
@@ -24,13 +23,12 @@ def mesh_equal(
     if not points_equal:
         return PredicateResult(False, report=f"Differing points - '{points_equal.report}'")
 
-    source_ct, target_ct = set(source.cell_types), set(target.cell_types)
-    diff = source_ct.difference(target_ct).union(target_ct.difference(source_ct))
-    if len(_without_compatibles(diff)) != 0:
+    cell_type_pairs = _match_cell_types(set(source.cell_types), set(target.cell_types))
+    if cell_type_pairs is None:
         return PredicateResult(False, report="Differing grid cell types detected")
 
     for cell_type in source.cell_types:
-        tct = cell_type if cell_type in target_ct else _find_compatible(target_ct, cell_type)
+        tct = cell_type_pairs[cell_type]
         if len(source.connectivity(cell_type)) != len(target.connectivity(tct)):
             message_end = f"type '{tct.name}'" if tct == cell_type else f"types '{cell_type.name}/{tct.name}'"
             return PredicateResult(False, report=f"Differing number of cells of {message_end}")
@@ -65,16 +63,21 @@ def _get_dynamic_size_corner_indices_sorted(corners: Array) -> Array:
     return make_array([c[get_sorting_index_map(c)] for c in corners], dtype="object")
 
 
-def _without_compatibles(cts: set[CellType]) -> set[CellType]:
-    to_remove: set[CellType] = set()
-    for c1, c2 in product(cts, cts):
-        if c1.is_compatible_with(c2):
-            to_remove = to_remove.union(set([c1, c2]))
-    return cts.difference(to_remove)
+def _match_cell_types(source_cts: set[CellType], target_cts: set[CellType]) -> dict[CellType, CellType] | None:
+    """Pair each source cell type with a distinct (identical or compatible) target cell type, if possible"""
+    if len(source_cts) != len(target_cts):
+        return None
+    result: dict[CellType, CellType] = {}
+    for ct in source_cts:
+        partner = ct if ct in target_cts else _find_compatible(target_cts, ct)
+        if partner is None or partner in result.values():
+            return None
+        result[ct] = partner
+    return result
 
 
-def _find_compatible(cts: set[CellType], ct: CellType) -> CellType:
+def _find_compatible(cts: set[CellType], ct: CellType) -> CellType | None:
     for c in cts:
         if c.is_compatible_with(ct):
             return c
-    raise RuntimeError("Could not find compatible cell type")
+    return None
